@@ -145,14 +145,14 @@ type Cell struct {
 
 // Model is the logical screen.
 type Model struct {
-	W, H        int
-	C           []Cell
-	Def         Spec
-	CX, CY      int
-	CS          int
-	CC          tcell.Color
-	CSSet       bool // SetCursorStyle was called at least once
-	CCSet       bool
+	W, H   int
+	C      []Cell
+	Def    Spec
+	CX, CY int
+	CS     int
+	CC     tcell.Color
+	CSSet  bool // SetCursorStyle was called at least once
+	CCSet  bool
 }
 
 func NewModel(w, h int) *Model {
@@ -261,12 +261,12 @@ var RunesComb = []rune{0x301, 0x308, 0x20dd}
 var RunesBad = []rune{0, 7, 0x1b, 0x7f, 0x9b, 0x85, 0x200b, 0x202e, 0xfeff, 0x301, -1, 0x110000, 0xd800}
 
 type GenOpts struct {
-	MaxW, MaxH int
-	NoResize   bool
-	NoCorrupt  bool
-	NoLock     bool
+	MaxW, MaxH    int
+	NoResize      bool
+	NoCorrupt     bool
+	NoLock        bool
 	NoCursorStyle bool
-	Urls       bool
+	Urls          bool
 }
 
 func GenColor(r *rand.Rand) tcell.Color {
